@@ -147,6 +147,20 @@ class Facts:
             fields = a['variants'][0]['fields']
             have = {f['name'] for f in fields}
             cnames = {n for n, _ in fl}
+            # (0) a field kept its name but was wrapped in a private newtype / helper struct of this crate (`HeldNotes(Vec<..>)`,
+            # `RunLength(usize)`): the rules see the wrapped value under the same name
+            for i, f in enumerate(fields):
+                ct = next((t for n, t in fl if n == f['name']), None)
+                if ct is None or self._tykey(f['ty']) == self._tykey(ct) or f['ty'].get('k') != 'adt':
+                    continue
+                sub = self.adts.get(f['ty'].get('path'))
+                if sub is None or sub.get('crate') != a.get('crate') or sub.get('kind') != 'struct' or f['ty'].get('path') in canon:
+                    continue
+                inner = [(j, g) for j, g in enumerate(sub['variants'][0]['fields']) if self._tykey(g['ty']) == self._tykey(ct)]
+                if len(inner) == 1:
+                    a.setdefault('canon_paths', {})[f['name']] = [i, inner[0][0]]
+                    a.setdefault('canon_leaf_ty', {})[f['name']] = inner[0][1]['ty']
+                    self.field_aliases.setdefault(path, {})[f['name']] = 'wrapped in %s' % f['ty'].get('path', '?').split('::')[-1]
             missing = [(n, t) for n, t in fl if n not in have]
             extra = [f for f in fields if f['name'] not in cnames]
             if not missing or not extra:
@@ -175,8 +189,8 @@ class Facts:
                     if c:
                         taken.add(c[0][0]); paths[n] = list(c[0][0]); leaf_ty[n] = c[0][1]['ty']
                 if paths:
-                    a['canon_paths'] = paths
-                    a['canon_leaf_ty'] = leaf_ty
+                    a.setdefault('canon_paths', {}).update(paths)
+                    a.setdefault('canon_leaf_ty', {}).update(leaf_ty)
                     self.field_aliases.setdefault(path, {}).update({n: 'nested at %s' % '.'.join(str(i) for i in pth) for n, pth in paths.items()})
                     missing = [(n, t) for n, t in missing if n not in paths]
                     used_outer = {pth[0] for pth in paths.values()}
